@@ -5,3 +5,19 @@ open BsVerif.PathIndex
 #print axioms C17_no_miss
 #print axioms C17_no_false_match
 #print axioms C17_symbol_filter
+open BsVerif.Symbols
+#print axioms C17_symbols_all_objects
+#print axioms C17_symbols_names
+#print axioms C17_symbols_concat
+#print axioms C17_symbols_single
+#print axioms C17_symbols_once_per_object
+#print axioms C17_symbols_count
+#print axioms C17_symbols_perm
+#print axioms C17_symbols_ignore_dwarf
+#print axioms C17_symbols_registry_add
+#print axioms C17_pattern_semantics
+#print axioms C17_symbols_elf_partial
+#print axioms C17_symbols_elf_counterexample
+#print axioms C17_symbols_loaded_registry
+#print axioms C17_symbols_registry_load_add
+#print axioms C17_symbols_registry_load_remove
